@@ -84,6 +84,10 @@ CHECKS = {
    "Enumeration of configurations and faults on real in-process nodes (RPC over loopback): all 42 ordered pairs of different non-empty server sets over {A,B,C} x placement seeds x the order in which the nodes run their start-up Sync (permutations and fully concurrent), data created through the old cluster (4 users, 8 shard files); for every world the receive handler (verif fault hook at the top of RPCSendShard) fails at chunk k of the t-th transfer, optionally followed by truncating the partial destination file to 0 / 1 / size-1 bytes, then all nodes restart and synchronise twice; synthetic shard files around multiples of the 8 MiB chunk size with a failure at every chunk index. Oracle: nothing lost after an interrupted run; afterwards every record and shard file on exactly its RendezvousHash owner, byte-identical (xxhash + length), every point readable through every new node.",
    "a killed sender = its Sync returning an error; a killed receiver = the file state after chunk k; RpcRetries 1; real kill -9 inside write(2) replaced by torn-file enumeration",
    "exhaustive enumeration of configurations x fault points (chunk indices, torn files) on the real synchronisation code", "DESIGN.md §4 C14"),
+ "C18": (True, "seqx-input", "exploration",
+   "Exhaustive enumeration of a bounded request grammar against the assembled HTTP handler chain (v1 + v2 mux, app-header middleware, Recover) of a real node, in worker processes so that a fatal error is attributed to the request in flight: every byte string of length <= 4 (thorough 5) over structural JSON / MessagePack alphabets as body of all 10 body-taking routes; every node of 11 valid base requests deleted or replaced by each of 32 boundary / wrong-type / reserved values in JSON and MessagePack; header and content-type variants, unknown and body-less routes, every v1 route on a v2 collection and vice versa, quota / size / vector-length limits, nesting depths 10..10^6. Oracle: never 5xx, never a dead process, certainly-invalid requests get 4xx, any 4xx leaves the digest of all collections and points unchanged (a difference is confirmed by replaying only the refused requests on a fresh node), unmodified base requests succeed.",
+   "the input space is infinite: the grammar, its length bound and single-field mutations are the stated bound; huge bodies (memory exhaustion) are not explored",
+   "bounded-exhaustive enumeration of request bytes and single-field mutations against the real handlers with crash attribution", "DESIGN.md §4 C18"),
 }
 
 props = [json.loads(l) for l in open(os.path.join(HERE, "properties.jsonl"))]
